@@ -4,6 +4,7 @@
  *
  *  X <id> <dflags> <framehex> <ops> [maxcalls]        streaming decompression history
  *      dflags : "-" or comma list: ml (magicless) | wl=<windowLogMax> | bm=<maxBlockSize> | so=<size> (stable out buffer) | nock
+ *               | dict=<hex> (ZSTD_DCtx_loadDictionary: attached for indefinite use)
  *      ops    : in:cap;in:cap;...   in = <n> | h (last hint) | h+<k> | h-<k> | a (all remaining) ; cap = <n> | r (1<<20)
  *               the list is cycled until the input is consumed and the last call returned 0 (or error / maxcalls)
  *      -> <id> OK <outhex> offered:cap:consumed:produced:ret|E<name>:streamStage:stage:expected:lhSize:inPos:outStart:outEnd:hostage:inBuffSize:outBuffSize;...
@@ -76,6 +77,7 @@ static void cmd_X(char** t, int nt) {
             else if (!strncmp(q, "bm=", 3)) r = ZSTD_DCtx_setParameter(d, ZSTD_d_maxBlockSize, atoi(q + 3));
             else if (!strncmp(q, "so=", 3)) { stable = 1; so = (size_t)strtoull(q + 3, NULL, 10); r = ZSTD_DCtx_setParameter(d, ZSTD_d_stableOutBuffer, 1); }
             else if (!strcmp(q, "nock")) r = ZSTD_DCtx_setParameter(d, ZSTD_d_forceIgnoreChecksum, 1);
+            else if (!strncmp(q, "dict=", 5)) { size_t dn; unsigned char* db = unhex(q + 5, &dn); r = ZSTD_DCtx_loadDictionary(d, db, dn); free(db); }
             if (ZSTD_isError(r)) { perr(id, r); free(fl); goto done0; }
             q = strtok_r(NULL, ",", &s2);
         }
